@@ -35,6 +35,7 @@ inductive Instr where
   | push (r : Reg) | pop (r : Reg)
   | store (r : Reg)                     -- mov [cell], r : the result
   | ret
+  | unsupported                         -- anything the translator could not map: every check fails on it
 deriving DecidableEq, Repr
 
 structure St where
@@ -91,6 +92,7 @@ def step (cfg : Cfg) (p : List Instr) (s : St) : Option St :=
       | [] => some { s with pc := nx, regs := setR s.regs r .junk }
     | .store r => some { s with pc := nx, cell := some (s.regs r) }
     | .ret => none
+    | .unsupported => none
 
 def run (cfg : Cfg) (p : List Instr) : Nat → St → St
   | 0, s => s
@@ -163,6 +165,7 @@ def sstep (p : List Instr) (σ : SSt) : Option (List (Option (SFlag × Bool) × 
       | [] => none
     | .store r => some [(none, { σ with pc := nx, cell := some (σ.regs r) })]
     | .ret => some []
+    | .unsupported => none
 
 def condHolds (cfg : Cfg) : Option (SFlag × Bool) → Bool
   | none => true
